@@ -1,10 +1,14 @@
 import IoraModel.Lemmas.KvFiles
+import IoraModel.Lemmas.KvRace
+import IoraModel.Lemmas.KvRaceN
 /-!
 # C12 — The key-value store is a map with absolute expiry, across restarts
 
 Property theorems only (lemmas: `Lemmas/KvStore.lean`, `Lemmas/KvFiles.lean`, `Lemmas/KvLog.lean`).  Model:
 `Model/KvStore.lean` (the running store, mirroring `kvstore.hpp`), `Model/KvLog.lean` (files), specification
-`Model/KvSpec.lean` (the plain reference map).  Constants come from the regenerated `Gen/Kv.lean`.
+`Model/KvSpec.lean` (the plain reference map), `Model/KvRace.lean` (lock skeleton of `get()` on a cache miss ∥ one writer;
+lemmas `Lemmas/KvRace.lean`), `Model/KvRaceN.lean` (the same step relations for any number of threads making any sequences
+of calls; lemmas `Lemmas/KvRaceN.lean`).  Constants and lock scopes come from the regenerated `Gen/Kv.lean`.
 -/
 namespace Iora.C12
 open Iora Iora.Kv
@@ -150,6 +154,154 @@ theorem M5_compaction (cfg : Cfg) (w : W) (hi : Inv cfg w) :
       cases hh : w.mem.kv.has k with
       | true => rfl
       | false => simp [look_none_of_not_has _ _ hh]
+
+/-! ## M6: `get()` on a cache miss racing a writer of the same key -/
+
+/-- **Gen obligation (lock scopes).** What the translator extracts from `kvstore.hpp` about the guards on `_mutex` and
+`_cacheMutex`: `get()` looks the key up and refills the cache inside ONE guard on `_mutex`; its fast path holds `_cacheMutex`
+only; every writer changes `_cache`, `_kv` and `_expiry` while it holds `_mutex` exclusively; every access to `_cache` holds
+`_cacheMutex` (writes: exclusively).  These are the hypotheses under which a public method is one atomic step of the
+sequential model as far as the read cache is concerned (`M6_get_miss_race`). -/
+theorem gen_locks_ok :
+    Gen.Kv.getRefillsCacheUnderStoreLock = true ∧ Gen.Kv.getFastPathTakesCacheLockOnly = true ∧
+    Gen.Kv.writersTouchCacheUnderStoreLock = true ∧ Gen.Kv.storeWritesUnderStoreLock = true ∧
+    Gen.Kv.cacheAccessUnderCacheLock = true := by
+  decide
+
+/-- **M6 (cache coherence under every schedule).** For the lock scopes of the working tree (`Race.Shape.gen`): whatever
+the key holds (`kv`), whatever coherent cache entry it has, whatever a writer stores for it (`set`, `set`+TTL, `setBatch`,
+`remove`, `expireAt`, `persist`, `clear`, eviction: `o.OK`), and for EVERY interleaving of the steps of `get()`'s cache-miss
+path (lock `_mutex` shared, copy value and expiry, lock `_cacheMutex`, assign `_cache[k]`, unlock, unlock) with the
+writer's steps (lock `_mutex`, store, lock `_cacheMutex`, update/erase `_cache[k]`, unlock, unlock), stopped anywhere:
+the cache entry of the key is absent or equal to the stored entry (value and expiry) whenever the writer is not between its
+two assignments; when the writer has returned, `_kv` holds what it stored.  So no `get`/`getString` can serve a removed
+key, an overwritten value or a lapsed expiry from the cache after the writer's call has returned. -/
+theorem M6_get_miss_race (fresh : Ent → Bool) (o : Race.WOp) (ho : o.OK) (kv cache : Option Ent)
+    (h0 : cache = none ∨ cache = kv) (sched : List Bool) :
+    let s := Race.run Race.Shape.gen fresh o (Race.St.init kv cache) sched
+    ((s.w ≠ .wroteKv ∧ s.w ≠ .hasC) → s.Coherent) ∧ (s.w = .done → s.kv = o.kv) :=
+  Race.race_coherent Race.Shape.gen (by decide) (by decide) fresh o ho kv cache h0 sched
+
+/-- **M6 (progress).** Under the same lock scopes the two calls cannot block each other for ever: in every reachable
+state in which a call has not returned at least one of the two threads can move (both take `_mutex` before
+`_cacheMutex`), and the schedule "reader to its end, then writer to its end" makes both return. -/
+theorem M6_progress (fresh : Ent → Bool) (o : Race.WOp) (ho : o.OK) (kv cache : Option Ent)
+    (h0 : cache = none ∨ cache = kv) (sched : List Bool) :
+    (let s := Race.run Race.Shape.gen fresh o (Race.St.init kv cache) sched
+     ¬ (s.r = .done ∧ s.w = .done) →
+       (Race.stepR Race.Shape.gen fresh s).r ≠ s.r ∨ (Race.stepW Race.Shape.gen o s).w ≠ s.w) ∧
+    (let s := Race.run Race.Shape.gen fresh o (Race.St.init kv cache) (List.replicate 7 true ++ List.replicate 7 false)
+     s.r = .done ∧ s.w = .done) :=
+  ⟨fun hnd => Race.race_no_deadlock Race.Shape.gen (by decide) (by decide) fresh o _
+      (Race.inv_run Race.Shape.gen (by decide) (by decide) fresh o ho sched _ (Race.inv_init _ o kv cache h0)) hnd,
+   Race.race_terminates Race.Shape.gen (by decide) (by decide) fresh o kv cache⟩
+
+/-- **M6 (the other lock scope is refuted).** If `get()` releases `_mutex` before it refills the cache, a schedule exists
+after which both calls have returned, the key has been removed and the cache still holds its old value: the hypothesis
+`getRefillsCacheUnderStoreLock` of `M6_get_miss_race` cannot be dropped. -/
+theorem M6_unlocked_refill_refuted :
+    ∃ (o : Race.WOp) (kv : Option Ent) (sched : List Bool), o.OK ∧
+      let s := Race.run { refillUnderStoreLock := false, writerCacheUnderStoreLock := true } (fun _ => true) o (Race.St.init kv none) sched
+      s.r = .done ∧ s.w = .done ∧ s.kv = none ∧ s.cache = kv ∧ kv ≠ none ∧ ¬ s.Coherent :=
+  Race.race_refuted
+
+/-- **M6 (any number of threads, any calls, every schedule).** The same lock skeleton with `n` threads for every `n`; each
+thread makes any sequence of calls: the fast path of `get(k)` (a read of `_cache[k]` under `_cacheMutex`), `get(k)` on the
+cache-miss path, any writer of `k` (`a.OK`: it erases the cache entry or sets it to what it stored), any erasure of `k`'s
+cache entry under `_cacheMutex` (LRU victim of a call on another key).  For
+the lock scopes of the working tree and EVERY schedule of their steps, stopped anywhere: (1) `k`'s cache entry is absent or
+exactly the stored entry whenever no writer stands between its two assignments; (2) in particular whenever no call is in
+flight (quiescence: what the harness' coherence monitor checks after the racing threads were joined); (3) `_mutex` has at
+most one exclusive holder and then no shared holder; (4) `_cacheMutex` has at most one holder. -/
+theorem M6_any_threads (n : Nat) (kv cache : Option Ent) (h0 : cache = none ∨ cache = kv) (sched : List RaceN.Act)
+    (hok : ∀ a ∈ sched, a.OK) :
+    let s := RaceN.run Race.Shape.gen (RaceN.St.init n kv cache) sched
+    ((∀ i, i < n → (s.th i).mid = false) → s.Coherent) ∧
+    ((∀ i, i < n → (s.th i).finished = true) → s.Coherent) ∧
+    (∀ i j, i < n → j < n → (s.th i).holdsX Race.Shape.gen = true →
+      (s.th j).holdsS Race.Shape.gen = false ∧ (i ≠ j → (s.th j).holdsX Race.Shape.gen = false)) ∧
+    (∀ i j, i < n → j < n → i ≠ j → (s.th i).holdsC = true → (s.th j).holdsC = false) :=
+  RaceN.raceN_coherent Race.Shape.gen (by decide) (by decide) n kv cache h0 sched hok
+
+/-- the hypotheses of `M6_any_threads` are satisfiable by a schedule in which things happen: three threads, two `get(k)` and
+one `set(k, [2])`; both readers take `_mutex` shared, the writer is blocked, reader 0 refills the cache with the old value,
+the readers return, the writer runs to its end: the cache then holds the NEW value, no call is in flight -/
+example :
+    let sched : List RaceN.Act :=
+      [.call 0 .get, .call 1 .get, .call 2 (.write { kv := some ([2], none), cache := some ([2], none) }),
+       .move 0 true, .move 1 true, .move 2 true, .move 0 true, .move 1 true, .move 0 true, .move 0 true, .move 2 true,
+       .move 0 true, .move 0 true, .move 1 true, .move 1 true, .move 1 true, .move 1 true,
+       .move 2 true, .move 2 true, .move 2 true, .move 2 true, .move 2 true, .move 2 true]
+    let s := RaceN.run Race.Shape.gen (RaceN.St.init 3 (some ([1], none)) none) sched
+    (∀ a ∈ sched, a.OK) ∧ s.kv = some ([2], none) ∧ s.cache = some ([2], none) ∧
+      (RaceN.run Race.Shape.gen (RaceN.St.init 3 (some ([1], none)) none) (sched.take 11)).cache = some ([1], none) := by
+  refine ⟨?_, ?_⟩
+  · intro a ha
+    simp only [List.mem_cons, List.not_mem_nil, or_false] at ha
+    rcases ha with h | h | h | h | h | h | h | h | h | h | h | h | h | h | h | h | h | h | h | h | h | h | h <;> subst h <;>
+      first | trivial | exact Or.inr rfl
+  · simp [RaceN.run, RaceN.apply, RaceN.stepTh, RaceN.nextR, RaceN.nextW, RaceN.St.init, RaceN.St.put, RaceN.St.setTh, RaceN.St.noX,
+      RaceN.St.noS, RaceN.St.noC, RaceN.Th.finished, RaceN.Th.holdsX, RaceN.Th.holdsS, RaceN.Th.holdsC, Race.rHoldsMu, Race.rHoldsC,
+      Race.wHoldsMu, Race.wHoldsC, RaceN.Call.start, Race.Shape.gen, Gen.Kv.getRefillsCacheUnderStoreLock,
+      Gen.Kv.writersTouchCacheUnderStoreLock, List.range, List.range.loop]
+
+/-- **M6 (any number of threads: the other lock scope is refuted).** With the refill outside the store lock two of the threads
+suffice: a schedule exists after which no call is in flight, the key is removed and its cache entry still holds the old value. -/
+theorem M6_any_threads_unlocked_refill_refuted :
+    ∃ (kv : Option Ent) (sched : List RaceN.Act), (∀ a ∈ sched, a.OK) ∧
+      let s := RaceN.run { refillUnderStoreLock := false, writerCacheUnderStoreLock := true } (RaceN.St.init 2 kv none) sched
+      (∀ i, i < 2 → (s.th i).finished = true) ∧ s.kv = none ∧ s.cache = kv ∧ ¬ s.Coherent :=
+  RaceN.raceN_refuted
+
+/-- **M6 (the writers' lock scope is needed too).** If a writer releases `_mutex` before it updates the cache, two writers and
+no reader suffice: `set(k, v)` ∥ `remove(k)` end, with no call in flight, with the key gone and the cache serving `v`.  So
+`writersTouchCacheUnderStoreLock` cannot be dropped either (the two-thread model, one writer, cannot show this). -/
+theorem M6_any_threads_unlocked_writer_refuted :
+    ∃ (v : Ent) (sched : List RaceN.Act), (∀ a ∈ sched, a.OK) ∧
+      let s := RaceN.run { refillUnderStoreLock := true, writerCacheUnderStoreLock := false } (RaceN.St.init 2 none none) sched
+      (∀ i, i < 2 → (s.th i).finished = true) ∧ s.kv = none ∧ s.cache = some v ∧ ¬ s.Coherent :=
+  RaceN.raceN_writer_scope_refuted
+
+/-- **M6 (linearizability of one key to an atomic register).** `St.lin` is a ghost of the n-thread skeleton (no step reads
+it).  For the lock scopes of the working tree, every `n`, every schedule, every reachable state: (1) what the fast path of
+`get(k)` reads from `_cache[k]` is absent (a miss: the call goes on to the authoritative path) or `lin`; (2) what the miss
+path is about to load from `_kv[k]` is `lin`; (3) `lin` is what `_kv[k]` holds whenever no writer stands between its two
+assignments, in particular when no call is in flight.  Together with `M6_register_steps` (`lin` changes in exactly one step
+of each writer's call — its assignment to `_cache[k]`, strictly between the call's first and last step — and becomes what
+that writer stores) every `get` returns the value of an atomic register at a moment inside the call, and every writer
+updates that register at a moment inside its call: the calls on one key are linearizable to the map specification's entry
+for that key, which is what makes "every public method is one atomic step" (the sequential model, M1–M5) sound for the
+values `get` returns, not only for the state at rest. -/
+theorem M6_linearizable (n : Nat) (kv cache : Option Ent) (h0 : cache = none ∨ cache = kv) (sched : List RaceN.Act)
+    (hok : ∀ a ∈ sched, a.OK) :
+    let s := RaceN.run Race.Shape.gen (RaceN.St.init n kv cache) sched
+    (s.cache = none ∨ s.cache = s.lin) ∧
+    (∀ i tmp, i < n → s.th i = .rd .hasS tmp → s.kv = s.lin) ∧
+    ((∀ i, i < n → (s.th i).mid = false) → s.lin = s.kv) :=
+  RaceN.raceN_linearizable Race.Shape.gen (by decide) (by decide) n kv cache h0 sched hok
+
+/-- **M6 (the register changes once per writer, inside its call).** An action leaves `lin` alone, or it is the step "writer
+`i` assigns `_cache[k]`" (program counter `hasC`: the call has taken `_mutex` and `_cacheMutex` and has not released them) and
+`lin` becomes what that writer stores.  Holds for every state and every lock scope. -/
+theorem M6_register_steps (sh : Race.Shape) (s : RaceN.St) (a : RaceN.Act) :
+    (RaceN.apply sh s a).lin = s.lin ∨
+      ∃ i fresh o, a = .move i fresh ∧ i < s.n ∧ s.th i = .wr .hasC o ∧ (RaceN.apply sh s a).lin = o.kv :=
+  RaceN.lin_apply sh s a
+
+/-- **M6 (no deadlock, any number of threads).** In every reachable state of the n-thread skeleton in which some thread is
+inside a call, some thread is not blocked (given the processor it moves, whatever its expiry test answers): every call takes
+`_mutex` before `_cacheMutex`, a holder of `_cacheMutex` never waits, and a holder of `_mutex` waits for `_cacheMutex` only. -/
+theorem M6_any_threads_progress (n : Nat) (kv cache : Option Ent) (h0 : cache = none ∨ cache = kv) (sched : List RaceN.Act)
+    (hok : ∀ a ∈ sched, a.OK) :
+    let s := RaceN.run Race.Shape.gen (RaceN.St.init n kv cache) sched
+    ∀ i, i < n → (s.th i).finished = false → ∃ j, j < n ∧ RaceN.Moves Race.Shape.gen s j := by
+  intro s i hin hf
+  have hi : RaceN.Inv Race.Shape.gen s :=
+    RaceN.inv_run Race.Shape.gen (by decide) (by decide) sched _ hok (RaceN.inv_init Race.Shape.gen n kv cache h0)
+  have hn : s.n = n := RaceN.run_n Race.Shape.gen sched _
+  obtain ⟨j, hj, hm⟩ := RaceN.raceN_no_deadlock Race.Shape.gen (by decide) (by decide) s hi i (hn ▸ hin) hf
+  exact ⟨j, hn ▸ hj, hm⟩
+
 
 /-! ## non-vacuity -/
 
